@@ -259,17 +259,29 @@ def projLog (log : List LogEv) (i : Nat) : List LogEv := log.filter (fun e => e.
 
 /-! ## what a unit fires: the three places the framework issues callbacks from -/
 
+/-- how the wrapped function returned.  `intr`: it returned an interrupt
+    (`compose.InterruptAndRerun`, an error wrapping it, or a sub-graph interrupt) — for the
+    wrapper this is `err != nil` like any failure, for the run it is a suspension. -/
 inductive EndKind where
-  | ok | okStream | err
+  | ok | okStream | err | intr
   deriving DecidableEq, Repr
 
 def startT (stream : Bool) : Timing := if stream then .startStream else .start
+/-- the finishing callback that belongs to an outcome -/
 def endT : EndKind → Timing
-  | .ok => .end_ | .okStream => .endStream | .err => .error
+  | .ok => .end_ | .okStream => .endStream | .err => .error | .intr => .error
 
-/-- compose/utils.go `runWithCallbacks`: `onStart; r; if err != nil {onError} else {onEnd}` -/
-def wrapperCalls (startStream : Bool) (k : EndKind) : List Timing :=
-  [startT startStream, endT k]
+/-- compose/utils.go `runWithCallbacks`, the callbacks of one *returned* call:
+    `onStart; r; if err != nil { … onError; return }; onEnd; return`.
+    `onErrorAlways` (source fact): nothing returns between `r` and the `onError` call, i.e.
+    `onError` is reached on every `err != nil` path.  The one class of errors the runtime
+    itself tells apart (`isInterruptError`) is the interrupt: with `onErrorAlways = false`
+    the model lets exactly that path leave before `onError`. -/
+def wrapperCalls (onErrorAlways : Bool) (startStream : Bool) (k : EndKind) : List Timing :=
+  startT startStream ::
+    (match k with
+     | .intr => if onErrorAlways then [Timing.error] else []
+     | k => [endT k])
 
 /-- the return paths of `runner.run` (graph_run.go) -/
 inductive RunPath where
@@ -372,9 +384,25 @@ structure UnitSpec where
   path : List String
   /-- tool call inside a ToolsNode: context made with `ReuseHandlers` -/
   toolCall : Bool
+  /-- the unit's own RunInfo (name / type / component, rendered) -/
   info : String
   kind : UKind
+  /-- the component implements `IsCallbacksEnabled() = true` (it fires its own callbacks) -/
+  cbEnabled : Bool
   deriving Repr
+
+/-- the source facts of the compose level (compose/graph_run.go, utils.go, tool_node.go) -/
+structure CFacts where
+  /-- `runner.run` has the deferred end/error block -/
+  hasDefer : Bool
+  /-- … which calls `onGraphStart` if the body did not -/
+  deferStarts : Bool
+  /-- `runWithCallbacks` reaches `onError` on every `err != nil` path -/
+  wrapperOnErrorAlways : Bool
+  /-- `runToolCallTaskBy{Invoke,Stream}` make the tool call's context with the tool's own
+      RunInfo unconditionally — also for a tool that fires its own callbacks -/
+  toolOwnInfoAlways : Bool
+  deriving DecidableEq, Repr
 
 structure Case where
   globals : List Hd
@@ -395,39 +423,49 @@ def buildCbs (opts : List Opt) : Heap × Slice :=
 def designated (opts : List Opt) (path : List String) : List Hd :=
   (opts.filter (fun o => o.paths.contains path)).flatMap (·.hs)
 
-def kindProg (hasDefer deferStarts : Bool) : UKind → List Timing
-  | .graph s p => runCalls hasDefer deferStarts s p
-  | .wrapped s k => wrapperCalls s k
+def kindProg (cf : CFacts) : UKind → List Timing
+  | .graph s p => runCalls cf.hasDefer cf.deferStarts s p
+  | .wrapped s k => wrapperCalls cf.wrapperOnErrorAlways s k
   | .self own => own
 
 /-- index (in `c.units`) of the unit that owns the context this unit's context is made from -/
 def parentIdx (us : List UnitSpec) (u : UnitSpec) : Option Nat :=
   us.findIdx? (fun v => v.path == u.path.dropLast && !v.toolCall)
 
+/-- The RunInfo in the context a unit's callbacks are fired with.  compose/tool_node.go
+    `runToolCallTaskBy{Invoke,Stream}`: `ctx = ReuseHandlers(ctx, &RunInfo{task.name, …})` before
+    the tool runs.  If that were done only for tools the framework wraps
+    (`toolOwnInfoAlways = false`), a tool firing its own callbacks would fire them in the
+    ToolsNode's context, i.e. with the ToolsNode's RunInfo. -/
+def effInfo (cf : CFacts) (us : List UnitSpec) (u : UnitSpec) : String :=
+  if u.toolCall && u.cbEnabled && !cf.toolOwnInfoAlways then
+    match parentIdx us u with
+    | some p => ((us[p]?).map (·.info)).getD u.info
+    | none => u.info
+  else u.info
+
+/-- one unit of a compose run as a unit of the machine; `shift` = 1 if unit 0 is the caller's context -/
+def mkUnit (cf : CFacts) (c : Case) (root : UnitDecl) (shift : Nat) (u : UnitSpec) : UnitDecl :=
+  if u.path.isEmpty && !u.toolCall then
+    { root with info := effInfo cf c.units u, prog := kindProg cf u.kind }
+  else
+    ⟨(parentIdx c.units u).map (· + shift), if u.toolCall then .reuse else .append,
+     designated c.opts u.path, effInfo cf c.units u, kindProg cf u.kind⟩
+
 /-- The units of a compose run.  Unit 0 is the caller's context (if `userInit`) or the called
     graph; `c.units[0]` must be the called graph (`path = []`). -/
-def progOf (hasDefer deferStarts : Bool) (c : Case) : Prog :=
+def progOf (cf : CFacts) (c : Case) : Prog :=
   let cbs := buildCbs c.opts
   match c.userInit with
   | none =>
-    let mkU (u : UnitSpec) : UnitDecl :=
-      if u.path.isEmpty && !u.toolCall then
-        ⟨none, .init cbs.2, [], u.info, kindProg hasDefer deferStarts u.kind⟩
-      else
-        ⟨parentIdx c.units u, if u.toolCall then .reuse else .append,
-         designated c.opts u.path, u.info, kindProg hasDefer deferStarts u.kind⟩
-    { arrays := if cbs.1.isEmpty then [[]] else cbs.1, globals := c.globals, units := c.units.map mkU }
+    { arrays := if cbs.1.isEmpty then [[]] else cbs.1, globals := c.globals,
+      units := c.units.map (mkUnit cf c ⟨none, .init cbs.2, [], "", []⟩ 0) }
   | some (hs, spare) =>
     let base : Heap := if cbs.1.isEmpty then [[]] else cbs.1
     let ua : List Hd := hs ++ List.replicate spare default
-    let mkU (u : UnitSpec) : UnitDecl :=
-      if u.path.isEmpty && !u.toolCall then
-        ⟨some 0, .append, base.read cbs.2, u.info, kindProg hasDefer deferStarts u.kind⟩
-      else
-        ⟨(parentIdx c.units u).map (· + 1), if u.toolCall then .reuse else .append,
-         designated c.opts u.path, u.info, kindProg hasDefer deferStarts u.kind⟩
     { arrays := base ++ [ua], globals := c.globals,
-      units := ⟨none, .init ⟨base.length, 0, hs.length, hs.length + spare⟩, [], "caller", []⟩ :: c.units.map mkU }
+      units := ⟨none, .init ⟨base.length, 0, hs.length, hs.length + spare⟩, [], "caller", []⟩ ::
+               c.units.map (mkUnit cf c ⟨some 0, .append, base.read cbs.2, "", []⟩ 1) }
 
 /-- the canonical sequential schedule: every unit is created, then fires its whole program -/
 def seqSchedule (P : Prog) : List Ev :=
